@@ -2,6 +2,7 @@ import GoawkModel.C02
 import Proofs.C02Sound
 import Proofs.C02Depth
 import Proofs.C02Shape
+import Proofs.C02Compile
 /-! Property theorems for C02 (see /verif/DESIGN.md). Only property theorems and non-vacuity examples live here. -/
 namespace GoawkModel.C02
 open GoawkModel.Generated
@@ -143,5 +144,76 @@ theorem gen_matches_missing : C02Arity.vmMissing.map opName = ["Nop", "EndOpcode
 /-- every special-variable index a verified operand can hold has a case in getSpecial and setSpecial (their `default:` panics) -/
 theorem gen_matches_specials :
     C02Arity.getSpecialCases = C02Arity.numSpecials ∧ C02Arity.setSpecialCases = C02Arity.numSpecials := by decide
+
+/-! ## 5. `compile_verifies` as a theorem for the fragment of the compiler that C01 models
+
+`C01.cExpr` / `C01.cStmt` is C01's Lean model of `internal/compiler` (tied to the real compiler by word-for-word code equality on
+every program C01 explores; proved semantically correct in Props/C01). Its code, put into opcode words by `C01.encode`, has a
+height certificate — the left-to-right scan — that the C02 checker `checkBlock` accepts: every jump lands on an instruction
+boundary inside the block at the height the jump leaves, no instruction pops below the block's base, expressions leave +1 and
+statements leave 0. Hence (invariant of `verify_sound`) no run over it gets stuck. Side conditions: assignment targets are lvalues
+(`slvOK` / `lvOK`, what the parser guarantees), no user calls / `return` (not yet in the typed fragment), and the constants,
+variables and arrays the code names exist in the tables (`Fits`). -/
+
+open GoawkModel.C01 in
+/-- the code of a whole statement block of C01's language has a certificate accepted by the checker -/
+theorem compile_certified_modelled (t : Tables) (tb : C01.Tables) (p : Stmt)
+    (hO : tb.opcodes = Opcodes.opcodes) (hA : tb.augOps = Opcodes.augOps) (hl : Ty.slvOK p = true)
+    (hF : ∀ i ∈ cStmt 0 0 p, Fits t tb topCtx i) :
+    checkBlock t topCtx false 0 (encode tb (cStmt 0 0 p)) (heightsOf (cStmt 0 0 p)) (fun _ => false) = true :=
+  encode_certified t tb topCtx false _ 0 hO hA hF (Ty.block_typed p hl)
+
+open GoawkModel.C01 in
+/-- … and of a pattern expression (one value left) -/
+theorem compile_expr_certified_modelled (t : Tables) (tb : C01.Tables) (e : Expr)
+    (hO : tb.opcodes = Opcodes.opcodes) (hA : tb.augOps = Opcodes.augOps) (hl : Ty.lvOK e = true)
+    (hF : ∀ i ∈ cExpr e, Fits t tb topCtx i) :
+    checkBlock t topCtx false 1 (encode tb (cExpr e)) (heightsOf (cExpr e)) (fun _ => false) = true :=
+  encode_certified t tb topCtx false _ 1 hO hA hF (Ty.cExpr_push1 e hl 0)
+
+open GoawkModel.C01 in
+/-- Progress for compiled code, no per-program check involved: whatever statement of the modelled language is compiled, no run of
+the abstract machine over the emitted words — any number of steps, any branch outcomes — reaches `stuck`. -/
+theorem compiled_stmt_never_stuck (t : Tables) (tb : C01.Tables) (p : Stmt)
+    (hO : tb.opcodes = Opcodes.opcodes) (hA : tb.augOps = Opcodes.augOps) (hl : Ty.slvOK p = true)
+    (hF : ∀ i ∈ cStmt 0 0 p, Fits t tb topCtx i) (hfs : FuncsOK t) (cs : List Choice) :
+    run t (initState (encode tb (cStmt 0 0 p)) 0) cs ≠ .stuck :=
+  run_good hfs cs (encoded_block_good t tb _ 0 hO hA hF (Ty.block_typed p hl))
+
+open GoawkModel.C01 in
+theorem compiled_expr_never_stuck (t : Tables) (tb : C01.Tables) (e : Expr)
+    (hO : tb.opcodes = Opcodes.opcodes) (hA : tb.augOps = Opcodes.augOps) (hl : Ty.lvOK e = true)
+    (hF : ∀ i ∈ cExpr e, Fits t tb topCtx i) (hfs : FuncsOK t) (cs : List Choice) :
+    run t (initState (encode tb (cExpr e)) 1) cs ≠ .stuck :=
+  run_good hfs cs (encoded_block_good t tb _ 1 hO hA hF (Ty.cExpr_push1 e hl 0))
+
+open GoawkModel.C01 in
+/-- What is NOT yet a theorem: that the executable `verify` — whose height inference `infer` is a forward scan that is only
+re-checked, not proved complete — also answers `true` on this code (the certificate above shows a valid assignment exists;
+`infer` finding it is validated per program by the harness), and the same for code with user calls, `return`, for-in, getline,
+printf and the builtins. -/
+def compile_verifies_modelled : Prop :=
+  ∀ (t : Tables) (tb : C01.Tables) (p : Stmt), tb.opcodes = Opcodes.opcodes → tb.augOps = Opcodes.augOps → Ty.slvOK p = true →
+    (∀ i ∈ cStmt 0 0 p, Fits t tb topCtx i) → FuncsOK t → verify { tables := t, blocks := [(encode tb (cStmt 0 0 p), 0)] } = true
+
+namespace CompileExample
+open GoawkModel.C01
+
+/-- `while (g0 < g1) { g0++; if (g0 == g1) break }` -/
+def prog : Stmt :=
+  .while (.cmp .lt (.var .global 0) (.var .global 1))
+    (.seq (.expr (.incr (.var .global 0) false false)) (.ifThen (.cmp .eq (.var .global 0) (.var .global 1)) .brk))
+def tb : C01.Tables := { opcodes := Opcodes.opcodes, augOps := Opcodes.augOps, nums := [], strs := [] }
+def t : C02.Tables := { nNums := 0, nStrs := 0, nRegexes := 0, nScalars := 2, nArrays := 0, nNative := 0, funcs := [] }
+
+example : Ty.slvOK prog = true := by decide
+example : FuncsOK t := by intro f hf; cases hf
+example : ∀ i ∈ cStmt 0 0 prog, Fits t tb topCtx i := by
+  intro i hi
+  simp [prog, cStmt, cCondT, cCondF, cJumpT, cJumpF, cExpr, cE, cExprStmt, stmtSize] at hi
+  rcases hi with rfl | rfl | rfl | rfl | rfl | rfl | rfl | rfl | rfl | rfl | rfl | rfl <;> simp [Fits, varFits, t]
+/-- on this instance the executable verifier agrees with the certificate -/
+example : verify { tables := t, blocks := [(encode tb (cStmt 0 0 prog), 0)] } = true := by decide +kernel
+end CompileExample
 
 end GoawkModel.C02
